@@ -59,6 +59,13 @@ HeaderLikeTexts ==
    <<48,46,48,48,48,48,48,48,49>>, <<49,101,49,48,48,48,48,48,48>>, <<34,92,117,48,48,52,49,34,10>>, <<45,48,46,48,48,48,48,48,48>>,
    <<34,48,48,48,48,48,48,34>>, <<34,32,32,32,32,32,32,34>>, <<49,32,32,32,32,32,32,32>>, <<50,53,53,48,48,48,48,48,48,48>>}
 
+\* JSON-looking bytes whose strings or keys are not well-formed UTF-8, next to escapes and plain characters:
+\* whatever the decoders answer, no string in it may be ill-formed
+BadUnits == {<<255>>, <<195>>, <<128>>, <<192, 128>>, <<237, 160, 128>>, <<240, 159, 152>>, <<244, 144, 128, 128>>}
+Around == {<<>>, <<97>>, <<92, 110>>, <<92, 117, 48, 48, 52, 49>>, <<195, 169>>, <<10>>}
+BadUtf8Texts == {<<34>> \o pre \o u \o post \o <<34>> : pre \in Around, u \in BadUnits, post \in Around}
+                \cup {<<123, 34>> \o pre \o u \o post \o <<34, 58, 49, 125>> : pre \in {<<>>, <<92, 110>>}, u \in BadUnits, post \in {<<>>, <<97>>}}
+                \cup {<<91, 49, 44, 34>> \o pre \o u \o post \o <<34, 93>> : pre \in {<<>>, <<92, 110>>}, u \in BadUnits, post \in {<<>>, <<97>>}}
 Init == stage = "start" /\ doc = [k |-> "nil"] /\ scr = [op |-> "none"]
 Pick == stage = "start" /\ Family = "fault" /\ doc' \in (IF Double THEN SmallDocs ELSE FaultDocs) /\ stage' = "doc" /\ UNCHANGED scr
 EmitFaults ==
@@ -70,7 +77,8 @@ EmitFaults ==
         \/ (Double /\ \E f \in Faults1(b) : \E g \in Faults1(f) : CountCapOk(g) /\ Out(DecodeScr(g, [z |-> 0])))
 EmitTexts ==
   /\ stage = "start" /\ Family = "texts"
-  /\ \E t \in HeaderLikeTexts : Out(DecodeScr(t, [text |-> 1]))
+  /\ \/ \E t \in HeaderLikeTexts : Out(DecodeScr(t, [text |-> 1]))
+     \/ \E t \in BadUtf8Texts : Out(DecodeScr(t, [z |-> 0]))
 Next == Pick \/ EmitFaults \/ EmitTexts
 Spec == Init /\ [][Next]_vars
 
